@@ -22,6 +22,7 @@ import time
 
 import vlib
 import scopelib as sl
+import synlib
 import tdgen
 
 THEOREMS = ["C13_complete_undefined_class_type", "C13_complete_undefined_class_parent",
@@ -37,7 +38,7 @@ TRUSTED = [
     "coq/model/{Scope,BangOps,Indexer}.v, tied to the code by the correspondence run of this check "
     "(diagnostics as (file, range, message class) multisets on well-formed programs and on every mutant) AND, for Core programs, by "
     "translation + proof: the indexer functions of IndexerSource, all bang operators, scope.rs, context.rs, symbol_map/typ.rs "
-    "(entry below); handlers/diagnostics.rs and the accessor table remain trusted tables",
+    "and the handlers/diagnostics.rs `exec` (entries below); the accessor table remains a trusted table",
     "parse errors (C04's subject) reach the model as ranges: those of the MODEL parser (bridge unit), required equal "
     "(range and message) to those of the real parser on every workspace of the run",
     "message-class table lib/scopelib.py MSG_CLASSES (message text -> class)",
@@ -48,7 +49,8 @@ TRUSTED = [
     "the REAL parse tree through the real typed accessors (a difference or a bridge unit that does not build is a "
     "broken tie): coreast.rs is a cross-check, not part of the trusted base for Core programs; trusted instead: the "
     "translators tools/translate/{t_tokens,t_lextables,t_unicode,t_lexer,t_grammar,t_grammarcert,t_ast}.py (re-run by this check; "
-    "tied to the code by C01/C02/C04/C15), the hand models of the 8 hand-written ast.rs methods in AstToCore.v, "
+    "tied to the code by C01/C02/C04/C15), the hand models of the hand-written ast.rs methods in AstToCore.v (now tied to ast.rs / lib.rs by "
+    "props/AstSource.v: translators t_astmethods, t_libglue; re-checked by this check), "
     "coq/extract/bridge_driver.ml",
     "observer harness/src/bin/idedump.rs, Coq extraction (ExtrOcamlBasic only), OCaml driver coq/extract/scope_driver.ml",
     "generator and fault seeder lib/tdgen.py (well-formedness by construction, audited with llvm-tblgen-14 on "
@@ -113,8 +115,9 @@ def run(ctx):
     t0 = time.time()
     bindir = vlib.build_harness(False, bins=BINS)
     fails = vlib.proof_step(ctx, "TG.Props.C13", THEOREMS, ["props/C13.vo"], TRUSTED,
-                            translators=sl.BRIDGE_TRANSLATORS + sl.INDEXER_TRANSLATORS)
-    sl.source_tie(ctx, fails)
+                            translators=sl.BRIDGE_TRANSLATORS + sl.INDEXER_TRANSLATORS + sl.DIAG_TRANSLATORS)
+    sl.source_tie(ctx, fails, diags=True)
+    synlib.ast_source_step(ctx, fails)     # the hand-written ast.rs accessor methods + lib.rs glue = the bridge's hand versions
     try:
         exe = vlib.build_model("scope")
     except vlib.BuildError as ex:
